@@ -195,6 +195,14 @@ Proof.
 Qed.
 Print Assumptions C09_oversize_nts_not_answered.
 
+(* SCION/UDP length field: what the UDP layer hands to the listener (length field 0 = the whole
+   rest, field >= 8 = that many bytes) is the payload the field delimits; the listener decides
+   on that payload (scion_decision_of takes it as its input), never on the field *)
+Theorem C09_udp_payload_meets_spec : forall dl L rest, L <= 8 + zlen rest -> 8 + zlen rest <= dl ->
+  scion_udp_payload dl L rest = udp_payload_spec L rest.
+Proof. exact udp_payload_meets_spec. Qed.
+Print Assumptions C09_udp_payload_meets_spec.
+
 (* ---- the same for whole histories: every exchange of every history passes the oracle,
         whatever the listener handled before it (the oracle of the "ip" case kind is
         C09_hist_ok over the probe and sentinel exchanges of all steps) ---- *)
